@@ -4,7 +4,7 @@
    Every matcher takes the *remaining* bytes [s] (Rust: remaining_bytes() =
    bytes[index..]) and returns how many bytes it consumed; the driver keeps the
    absolute position. *)
-From Coq Require Import List NArith ZArith Bool Lia.
+From Coq Require Import List NArith ZArith Bool Lia Floats.SpecFloat.
 From Abasic Require Import Model.Bytes Model.Num Model.Token Model.Data Gen.Tables.
 Import ListNotations.
 Open Scope N_scope.
@@ -126,6 +126,13 @@ Definition chomp_string (pos : nat) (s : bytes) : chomp token :=
   | _ => NoMatch
   end.
 
+Definition f64_is_finite (x : f64) : bool :=
+  match x with
+  | Floats.SpecFloat.S754_zero _ => true
+  | Floats.SpecFloat.S754_finite _ _ _ => true
+  | _ => false
+  end.
+
 (* chomp_number (tokenizer.rs:249-279): digits and dots over the crunched
    bytes; [n] = position after the last one. *)
 Fixpoint number_span (s : bytes) (skipped : nat) (digits : bytes) (last : nat)
@@ -144,7 +151,8 @@ Definition chomp_number (pos : nat) (s : bytes) : chomp token :=
   | (_, O) => NoMatch
   | (digits, n) =>
       match parse_f64 digits with
-      | Some x => Match (TNumber x) n
+      | Some x => if f64_is_finite x then Match (TNumber x) n
+                  else Fail (InvalidNumber pos (pos + n)%nat)
       | None => Fail (InvalidNumber pos (pos + n)%nat)
       end
   end.
